@@ -184,7 +184,9 @@ def apply_reference(repo):
         if q in repo.funcs:
             _merge_renamed_locals(repo.funcs[q])
             _thread_none_tests(repo.funcs[q].node)
+    repo.struct_objects = expand_struct_objects(repo, ref)
     repo.unrolled_tables = unroll_constant_tables(repo, ref)
+    repo.dict_gets = dict_get_to_membership(repo, ref)
     renamed = {}
     for q, fi in repo.funcs.items():
         if fi.is_lambda or q not in ref:
@@ -226,8 +228,9 @@ def apply_reference(repo):
         if fi.is_lambda or q not in ref:
             continue
         ref_locals = {n for n, _ in ref[q]["locals"]} | set(ref[q]["params"])
-        n = _split_tuple_assignments(fi.node, ref_locals)
+        n = _split_tuple_assignments(fi.node, ref_locals) + _split_chained_assignments(fi.node) + _assignments_to_ifexp(fi.node, ref[q], ref_locals)
         n += _increment_through_temp(fi.node, ref_locals) + _ifexp_assignments(fi.node, ref_locals)
+        _thread_none_tests(fi.node)
         n += _tail_duplicate(fi.node, ref_locals)
         if n:
             repo.restructured[q] = n
@@ -362,9 +365,10 @@ def inline_new_aliases(repo, ref):
             if not (isinstance(st, ast.Assign) and len(st.targets) == 1 and isinstance(st.targets[0], ast.Name)):
                 continue
             ch = _chain(st.value)
-            if ch is None:
+            chains = [ch] if ch is not None else _pure_chain_expr(st.value)
+            if not chains:
                 continue
-            if len(ch) < 2 and ch[0] in ("self", "cls"):
+            if ch is not None and len(ch) < 2 and ch[0] in ("self", "cls"):
                 continue
             stores = [n for n in walk_own(fi.node) if isinstance(n, ast.Name) and n.id == name and isinstance(n.ctx, (ast.Store, ast.Del))]
             if len(stores) != 1:
@@ -383,71 +387,82 @@ def inline_new_aliases(repo, ref):
                     later.add(id(x))
             if not all(id(x) in later for x in loads):
                 continue
-            root, attrs = ch[0], set(ch[1:])
-            # the root is not rebound and no attribute of the chain is stored in this function
-            root_stores = [n for n in walk_own(fi.node) if isinstance(n, ast.Name) and n.id == root and isinstance(n.ctx, (ast.Store, ast.Del))]
-            if root_stores:
-                def _loop_of(n):
-                    for a_ in _ancestors(n, fi.node):
-                        if isinstance(a_, (ast.For, ast.While, ast.AsyncFor)):
-                            return a_
-                    return None
-                lp = _loop_of(st)
-                # the root is rebound only before the binding, and - inside a loop - only in the same iteration of the same loop
-                if any(_pos(n) >= _pos(st) for n in root_stores if not (lp is not None and n is getattr(lp, "target", None))) \
-                        or any(_loop_of(n) is not lp and not (lp is not None and any(n is x for x in ast.walk(lp.target))) for n in root_stores if lp is not None) \
-                        or (lp is None and any(_loop_of(n) is not None for n in root_stores)):
-                    continue
-                if len(ch) == 1 and any(isinstance(getattr(n, "_parent", None), (ast.AugAssign,)) for n in root_stores):
-                    continue
-            if writers is None:
-                writers = _attr_writers(repo)
-            if q in writers.get("*", ()) and len(ch) > 1:
-                continue
-            if any(q in writers.get(a, ()) for a in attrs):
-                # the function itself stores an attribute of the chain: harmless only when every such store is executed before
-                # the binding and never again (it precedes the binding in the text and neither is inside a loop)
-                own = [n for n in walk_own(fi.node) if (isinstance(n, ast.Attribute) and isinstance(n.ctx, (ast.Store, ast.Del)) and n.attr in attrs)]
-                in_loop = any(isinstance(a_, (ast.For, ast.While, ast.AsyncFor)) for a_ in _ancestors(st, fi.node))
-                if in_loop or any(_pos(n) >= _pos(st) for n in own):
-                    continue
-            # calls executed between the binding and the last read (over-approximated: every call in the following statements
-            # of the block up to the last statement that reads the alias) must not reach a writer of a chain attribute
             last = max(i for i, s in enumerate(blk) if i > idx and any(id(x) in {id(y) for y in ast.walk(s)} for x in loads))
-            calls = [c for s in blk[idx + 1:last + 1] for c in ast.walk(s) if isinstance(c, ast.Call)]
-            bad_fns = set()
-            for a in attrs:
-                bad_fns |= writers.get(a, set())
-            bad_fns |= writers.get("*", set())
-            if len(ch) == 2 and root == "self" and fi.cls is not None:
-                # self.<attr> of an instance of this class: a method of an unrelated class that stores the same attribute name
-                # on *its* self writes another object
-                related = {fi.cls} | set(_mro(fi.cls)) | {c for c in repo.classes.values() if fi.cls in _mro(c)}
-                keep = set()
-                star = writers.get("*", set())
-                for wq in bad_fns:
-                    w = repo.funcs.get(wq)
-                    if w is None or w.cls is None or w.cls in related:
-                        keep.add(wq)
-                    elif wq in star and wq not in writers.get(ch[1], set()):
-                        if not _setattr_only_on_own(w):
-                            keep.add(wq)
-                    elif not _stores_only_on_self(w, ch[1]):
-                        keep.add(wq)
-                bad_fns = keep
-            if len(ch) == 1:
-                bad_fns = set()         # a local name cannot be rebound by anything that is called
-            if calls and bad_fns:
-                if cg is None:
-                    from .callgraph import CallGraph
-                    cg = CallGraph(repo)
-                direct = {e.callee.qual for e in cg.callees(q) if any(e.call is c for c in calls)}
-                reach = cg.reachable(sorted(direct)) if direct else set()
-                reach = set(reach) | direct
-                if reach & bad_fns:
+            ok_all = True
+            for ch in chains:
+              for _once in (1,):
+                ok_all = False
+                root, attrs = ch[0], set(ch[1:])
+                if root == name:
                     continue
-                # calls the graph could not resolve at all are library / builtin calls (len, isinstance, ...): they cannot store
-                # attributes of package objects unless they call back, which the by-name over-approximation already covers
+                # the root is not rebound and no attribute of the chain is stored in this function
+                root_stores = [n for n in walk_own(fi.node) if isinstance(n, ast.Name) and n.id == root and isinstance(n.ctx, (ast.Store, ast.Del))]
+                if root_stores:
+                    def _loop_of(n):
+                        for a_ in _ancestors(n, fi.node):
+                            if isinstance(a_, (ast.For, ast.While, ast.AsyncFor)):
+                                return a_
+                        return None
+                    lp = _loop_of(st)
+                    # the root is rebound only before the binding, and - inside a loop - only in the same iteration of the same loop
+                    if any(_pos(n) >= _pos(st) for n in root_stores if not (lp is not None and n is getattr(lp, "target", None))) \
+                            or any(_loop_of(n) is not lp and not (lp is not None and any(n is x for x in ast.walk(getattr(lp, "target", None) or ast.Pass()))) for n in root_stores if lp is not None) \
+                            or (lp is None and any(_loop_of(n) is not None for n in root_stores)):
+                        continue
+                    if len(ch) == 1 and any(isinstance(getattr(n, "_parent", None), (ast.AugAssign,)) for n in root_stores):
+                        continue
+                if writers is None:
+                    writers = _attr_writers(repo)
+                if q in writers.get("*", ()) and len(ch) > 1:
+                    continue
+                if any(q in writers.get(a, ()) for a in attrs):
+                    # the function itself stores an attribute of the chain: harmless only when every such store is executed before
+                    # the binding and never again (it precedes the binding in the text and neither is inside a loop)
+                    own = [n for n in walk_own(fi.node) if (isinstance(n, ast.Attribute) and isinstance(n.ctx, (ast.Store, ast.Del)) and n.attr in attrs)]
+                    in_loop = any(isinstance(a_, (ast.For, ast.While, ast.AsyncFor)) for a_ in _ancestors(st, fi.node))
+                    if in_loop or any(_pos(n) >= _pos(st) for n in own):
+                        continue
+                # calls executed between the binding and the last read (over-approximated: every call in the following statements
+                # of the block up to the last statement that reads the alias) must not reach a writer of a chain attribute
+                calls = [c for s in blk[idx + 1:last + 1] for c in ast.walk(s) if isinstance(c, ast.Call)]
+                bad_fns = set()
+                for a in attrs:
+                    bad_fns |= writers.get(a, set())
+                bad_fns |= writers.get("*", set())
+                if len(ch) == 2 and root == "self" and fi.cls is not None:
+                    # self.<attr> of an instance of this class: a method of an unrelated class that stores the same attribute name
+                    # on *its* self writes another object
+                    related = {fi.cls} | set(_mro(fi.cls)) | {c for c in repo.classes.values() if fi.cls in _mro(c)}
+                    keep = set()
+                    star = writers.get("*", set())
+                    for wq in bad_fns:
+                        w = repo.funcs.get(wq)
+                        if w is None or w.cls is None or w.cls in related:
+                            keep.add(wq)
+                        elif wq in star and wq not in writers.get(ch[1], set()):
+                            if not _setattr_only_on_own(w):
+                                keep.add(wq)
+                        elif not _stores_only_on_self(w, ch[1]):
+                            keep.add(wq)
+                    bad_fns = keep
+                if len(ch) == 1:
+                    bad_fns = set()         # a local name cannot be rebound by anything that is called
+                if calls and bad_fns:
+                    if cg is None:
+                        from .callgraph import CallGraph
+                        cg = CallGraph(repo)
+                    direct = {e.callee.qual for e in cg.callees(q) if any(e.call is c for c in calls)}
+                    reach = cg.reachable(sorted(direct)) if direct else set()
+                    reach = set(reach) | direct
+                    if reach & bad_fns:
+                        continue
+                    # calls the graph could not resolve at all are library / builtin calls (len, isinstance, ...): they cannot store
+                    # attributes of package objects unless they call back, which the by-name over-approximation already covers
+                ok_all = True
+              if not ok_all:
+                break
+            if not ok_all:
+                continue
             for x in loads:
                 new = ast.parse(ast.unparse(st.value), mode="eval").body
                 for y in ast.walk(new):
@@ -463,7 +478,41 @@ def inline_new_aliases(repo, ref):
                         del p._norm_text
                     p = getattr(p, "_parent", None)
             inlined.setdefault(q, []).append(name)
+            # the binding is dead now (every read was replaced and its value has no effect)
+            if len(blk) > 1 and blk[idx] is st:
+                del blk[idx]
+                _invalidate(fi.node)
+            if any(isinstance(x, ast.IfExp) for x in ast.walk(st.value)):
+                _simplify_bool_contexts(fi.node)
     return inlined
+
+
+def _pure_chain_expr(e):
+    """the attribute chains / names read by an expression built only from comparisons, boolean and arithmetic operators and
+    conditional expressions over chains and constants (no calls, no subscripts), or None"""
+    chains = []
+
+    def rec(x):
+        if isinstance(x, ast.Constant):
+            return True
+        c = _chain(x)
+        if c is not None:
+            chains.append(c)
+            return True
+        if isinstance(x, ast.Compare):
+            return rec(x.left) and all(rec(y) for y in x.comparators)
+        if isinstance(x, ast.BoolOp):
+            return all(rec(y) for y in x.values)
+        if isinstance(x, ast.BinOp):
+            return rec(x.left) and rec(x.right)
+        if isinstance(x, ast.UnaryOp):
+            return rec(x.operand)
+        if isinstance(x, ast.IfExp):
+            return rec(x.test) and rec(x.body) and rec(x.orelse)
+        return False
+    if isinstance(e, (ast.Compare, ast.BoolOp, ast.BinOp, ast.UnaryOp, ast.IfExp)) and rec(e):
+        return chains
+    return None
 
 
 def _inside(node, kinds, stop):
@@ -505,7 +554,8 @@ def describe_tests(fnode):
             form = "else" if n.orelse else "noelse"
             t = _txt(n.test)
             ifs[t] = form if ifs.get(t, form) == form else "mixed"
-    return {"compares": sorted(set(comps)), "nots": sorted(set(nots)), "tests": sorted(set(tests)), "augs": augs, "ifs": ifs}
+    ifexps = sorted({_txt(n.test) for n in walk_own(fnode) if isinstance(n, ast.IfExp)})
+    return {"compares": sorted(set(comps)), "nots": sorted(set(nots)), "tests": sorted(set(tests)), "augs": augs, "ifs": ifs, "ifexps": ifexps}
 
 
 _TERMINATORS = (ast.Return, ast.Raise, ast.Continue, ast.Break)
@@ -833,6 +883,211 @@ def inline_new_temporaries(repo, ref):
     return folded
 
 
+def expand_struct_objects(repo, ref):
+    """X.pack(a, b) / X.unpack(d) / X.size for a module-level or class-level X bound once to struct.Struct(<literal format>)
+    is struct.pack(<format>, a, b) / struct.unpack(<format>, d) / struct.calcsize(<format>): a precompiled format is only
+    another spelling of the format string"""
+    done = {}
+    objs = {}
+    for m in repo.modules.values():
+        scopes = [(None, m.tree.body)] + [(c.name, c.body) for c in m.tree.body if isinstance(c, ast.ClassDef)]
+        for cname, body in scopes:
+            count = {}
+            for st in body:
+                for x in ast.walk(st) if not isinstance(st, (ast.FunctionDef, ast.AsyncFunctionDef, ast.ClassDef)) else []:
+                    if isinstance(x, ast.Name) and isinstance(x.ctx, (ast.Store, ast.Del)):
+                        count[x.id] = count.get(x.id, 0) + 1
+            for st in body:
+                if isinstance(st, ast.Assign) and len(st.targets) == 1 and isinstance(st.targets[0], ast.Name) and isinstance(st.value, ast.Call) \
+                        and ast.unparse(st.value.func) in ("struct.Struct", "Struct") and len(st.value.args) == 1 and not st.value.keywords \
+                        and isinstance(st.value.args[0], ast.Constant) and isinstance(st.value.args[0].value, str) and count.get(st.targets[0].id) == 1:
+                    objs[(m.name, cname, st.targets[0].id)] = st.value.args[0].value
+    if not objs:
+        return done
+    globals_written = {n for m in repo.modules.values() for x in ast.walk(m.tree) if isinstance(x, ast.Global) for n in x.names}
+    for q, fi in repo.funcs.items():
+        if fi.is_lambda or q not in ref:
+            continue
+        own = {n for n, _ in _bound_names(fi.node)[0]} | set(fi.params)
+        for n in list(walk_own(fi.node)):
+            if not isinstance(n, ast.Attribute) or n.attr not in ("pack", "unpack", "unpack_from", "pack_into", "size", "iter_unpack"):
+                continue
+            v = n.value
+            key = None
+            if isinstance(v, ast.Name) and v.id not in own and v.id not in globals_written:
+                key = (fi.module.name, None, v.id)
+            elif isinstance(v, ast.Attribute) and isinstance(v.value, ast.Name):
+                if v.value.id in ("self", "cls") and fi.cls is not None:
+                    key = (fi.module.name, fi.cls.name, v.attr)
+                else:
+                    key = (fi.module.name, v.value.id, v.attr)
+            fmt = objs.get(key)
+            if fmt is None:
+                continue
+            p_ = getattr(n, "_parent", None)
+            if n.attr == "size":
+                _install(n, ast.parse("struct.calcsize(%r)" % fmt, mode="eval").body)
+            elif isinstance(p_, ast.Call) and p_.func is n:
+                new = ast.parse("struct.%s(%r)" % (n.attr, fmt), mode="eval").body
+                new.args += p_.args
+                new.keywords = p_.keywords
+                _install(p_, new)
+            else:
+                continue
+            done.setdefault(q, []).append(key[2])
+    if done:
+        _clear_analysis_caches()
+    return done
+
+
+def _never_none_mapping(repo, chain):
+    """the mapping named by the chain (module global X, or self.X) only ever holds values that are not None: every binding of X
+    in the package is a dict display / dict() / defaultdict(...) whose values are displays, lambdas, non-None constants or names of
+    module-level functions and classes, and every subscript store X[k] = v has such a v.  Returns the set of functions that
+    mutate the mapping (for the stability test), or None when the values cannot be vouched for."""
+    name = chain[-1]
+    if not (len(chain) == 1 or (len(chain) == 2 and chain[0] == "self")):
+        return None
+    defined = set()
+    for m in repo.modules.values():
+        for st in m.tree.body:
+            if isinstance(st, (ast.FunctionDef, ast.ClassDef)):
+                defined.add(st.name)
+
+    def value_ok(v):
+        if isinstance(v, ast.Constant):
+            return v.value is not None
+        if isinstance(v, (ast.List, ast.Dict, ast.Set, ast.Tuple, ast.Lambda, ast.ListComp, ast.DictComp, ast.SetComp, ast.JoinedStr)):
+            return True
+        if isinstance(v, ast.Name):
+            return v.id in defined
+        if isinstance(v, ast.Call) and isinstance(v.func, ast.Name) and v.func.id in ("list", "dict", "set", "tuple", "int", "str", "bytes", "re.compile"):
+            return True
+        return False
+    mutators = set()
+    bound = 0
+    for q, fi in list(repo.funcs.items()) + [(None, None)]:
+        nodes = walk_own(fi.node) if fi is not None else [n for m in repo.modules.values() for st in m.tree.body if not isinstance(st, (ast.FunctionDef, ast.ClassDef)) for n in ast.walk(st)]
+        for n in nodes:
+            tgt = None
+            if isinstance(n, ast.Assign):
+                for t in n.targets:
+                    c = _chain(t)
+                    if c is not None and c[-1] == name and len(c) == len(chain):
+                        bound += 1
+                        v = n.value
+                        if isinstance(v, ast.Dict):
+                            if not all(value_ok(x) for x in v.values):
+                                return None
+                        elif isinstance(v, ast.Call) and ast.unparse(v.func) in ("dict", "defaultdict", "collections.defaultdict", "OrderedDict") and not v.keywords and len(v.args) <= 1:
+                            pass
+                        else:
+                            return None
+                    if isinstance(t, ast.Subscript):
+                        c2 = _chain(t.value)
+                        if c2 is not None and c2[-1] == name:
+                            if not value_ok(n.value):
+                                return None
+                            if q is not None:
+                                mutators.add(q)
+            elif isinstance(n, (ast.AugAssign, ast.AnnAssign)):
+                c = _chain(n.target)
+                if c is not None and c[-1] == name:
+                    return None
+            elif isinstance(n, ast.Call) and isinstance(n.func, ast.Attribute) and n.func.attr in ("update", "setdefault", "pop", "popitem", "clear", "__setitem__"):
+                c = _chain(n.func.value)
+                if c is not None and c[-1] == name:
+                    if n.func.attr in ("update", "setdefault", "__setitem__"):
+                        return None
+                    if q is not None:
+                        mutators.add(q)
+            elif isinstance(n, ast.Delete):
+                for t in n.targets:
+                    if isinstance(t, ast.Subscript):
+                        c2 = _chain(t.value)
+                        if c2 is not None and c2[-1] == name and q is not None:
+                            mutators.add(q)
+    if bound == 0:
+        return None
+    return mutators
+
+
+def dict_get_to_membership(repo, ref):
+    """w = D.get(k)  with every test of w spelled `w is None` / `w is not None`:   the tests become `k not in D` / `k in D` and the
+    other reads of w become D[k], for a new local w, a key k that is a name bound once (or a constant), a mapping D whose values
+    are never None (see _never_none_mapping) and that nothing can mutate between the lookup and the reads (call graph)."""
+    done = {}
+    cg = None
+    for q, fi in repo.funcs.items():
+        if fi.is_lambda or q not in ref:
+            continue
+        ref_locals = {n for n, _ in ref[q]["locals"]} | set(ref[q]["params"])
+        for owner, field, blk in _blocks(fi.node):
+            for idx, st in enumerate(list(blk)):
+                if not (isinstance(st, ast.Assign) and len(st.targets) == 1 and isinstance(st.targets[0], ast.Name) and isinstance(st.value, ast.Call)
+                        and isinstance(st.value.func, ast.Attribute) and st.value.func.attr == "get" and not st.value.keywords and 1 <= len(st.value.args) <= 2):
+                    continue
+                if len(st.value.args) == 2 and not (isinstance(st.value.args[1], ast.Constant) and st.value.args[1].value is None):
+                    continue
+                w = st.targets[0].id
+                if w in ref_locals:
+                    continue
+                dch = _chain(st.value.func.value)
+                key = st.value.args[0]
+                if dch is None or not isinstance(key, (ast.Name, ast.Constant)):
+                    continue
+                occ = [n for n in walk_own(fi.node) if isinstance(n, ast.Name) and n.id == w]
+                loads = [n for n in occ if isinstance(n.ctx, ast.Load)]
+                if len(occ) - len(loads) != 1 or not loads:
+                    continue
+                if isinstance(key, ast.Name):
+                    kst = [n for n in walk_own(fi.node) if isinstance(n, ast.Name) and n.id == key.id and isinstance(n.ctx, (ast.Store, ast.Del))]
+                    if len(kst) > 1 or (len(kst) == 1 and _pos(kst[0]) > _pos(st)):
+                        continue
+                    if len(kst) == 1 and any(isinstance(a_, (ast.For, ast.While)) for a_ in _ancestors(kst[0], fi.node)):
+                        continue
+                later = {id(x) for s_ in blk[blk.index(st) + 1:] for x in ast.walk(s_)}
+                if not all(id(x) in later for x in loads):
+                    continue
+                mut = _never_none_mapping(repo, dch)
+                if mut is None:
+                    continue
+                if q in mut:
+                    continue
+                if mut:
+                    if cg is None:
+                        from .callgraph import CallGraph
+                        cg = CallGraph(repo)
+                    calls = [c for s_ in blk[blk.index(st) + 1:] for c in ast.walk(s_) if isinstance(c, ast.Call)]
+                    direct = {e.callee.qual for e in cg.callees(q) if any(e.call is c for c in calls)}
+                    reach = set(cg.reachable(sorted(direct))) | direct if direct else set()
+                    if reach & mut:
+                        continue
+                dtxt, ktxt = ast.unparse(st.value.func.value), ast.unparse(key)
+                tests, reads = [], []
+                ok = True
+                for x in loads:
+                    p_ = getattr(x, "_parent", None)
+                    if isinstance(p_, ast.Compare) and p_.left is x and len(p_.ops) == 1 and isinstance(p_.ops[0], (ast.Is, ast.IsNot)) \
+                            and isinstance(p_.comparators[0], ast.Constant) and p_.comparators[0].value is None:
+                        tests.append(p_)
+                    else:
+                        reads.append(x)
+                if not tests:
+                    continue
+                for p_ in tests:
+                    _install(p_, ast.parse("%s %s %s" % (ktxt, "not in" if isinstance(p_.ops[0], ast.Is) else "in", dtxt), mode="eval").body)
+                for x in reads:
+                    _install(x, ast.parse("%s[%s]" % (dtxt, ktxt), mode="eval").body)
+                if len(blk) > 1:
+                    blk.remove(st)
+                _invalidate(fi.node)
+                done.setdefault(q, []).append(w)
+    if done:
+        _clear_analysis_caches()
+    return done
+
+
 def _table_literals(repo):
     """{(class name or None, NAME): [element ast, ...]} for NAME = (<literal rows>) bound exactly once in a class body / at
     module level where nothing in the package stores an attribute or global of that name: a dispatch table"""
@@ -967,19 +1222,52 @@ def unroll_constant_tables(repo, ref):
     return done
 
 
-def _constant_expr(e, repo):
+def _module_fixed_names(repo, mod):
+    """names bound exactly once at the top level of the module by an import, def or class, and never declared global in a function"""
+    cached = getattr(mod, "_fixed_names", None)
+    if cached is not None:
+        return cached
+    count = {}
+    fixed = set()
+    for st in mod.tree.body:
+        if isinstance(st, (ast.Import, ast.ImportFrom)):
+            for a in st.names:
+                n = (a.asname or a.name).split(".")[0]
+                count[n] = count.get(n, 0) + 1
+                fixed.add(n)
+        elif isinstance(st, (ast.FunctionDef, ast.AsyncFunctionDef, ast.ClassDef)):
+            count[st.name] = count.get(st.name, 0) + 1
+            fixed.add(st.name)
+        else:
+            for x in ast.walk(st):
+                if isinstance(x, ast.Name) and isinstance(x.ctx, (ast.Store, ast.Del)):
+                    count[x.id] = count.get(x.id, 0) + 2
+    for x in ast.walk(mod.tree):
+        if isinstance(x, ast.Global):
+            for n in x.names:
+                count[n] = count.get(n, 0) + 2
+    out = {n for n in fixed if count.get(n) == 1 and n != "*"}
+    mod._fixed_names = out
+    return out
+
+
+def _constant_expr(e, repo, fi=None):
     """an expression whose value is fixed by the program text: literals, arithmetic / tuples over such, struct.calcsize and len of
-    such, and attributes of a package class that nothing in the package ever assigns outside the class body"""
+    such, attributes of a package class that nothing in the package ever assigns outside the class body, and names the module
+    binds once by import / def / class (when the function has no local of that name)"""
     if isinstance(e, ast.Constant):
         return True
+    if isinstance(e, ast.Name) and fi is not None:
+        own = {n for n, _ in _bound_names(fi.node)[0]} | set(fi.params)
+        return e.id not in own and e.id in _module_fixed_names(repo, fi.module)
     if isinstance(e, ast.BinOp):
-        return _constant_expr(e.left, repo) and _constant_expr(e.right, repo)
+        return _constant_expr(e.left, repo, fi) and _constant_expr(e.right, repo, fi)
     if isinstance(e, ast.UnaryOp):
-        return _constant_expr(e.operand, repo)
+        return _constant_expr(e.operand, repo, fi)
     if isinstance(e, ast.Tuple):
-        return all(_constant_expr(x, repo) for x in e.elts)
+        return all(_constant_expr(x, repo, fi) for x in e.elts)
     if isinstance(e, ast.Call) and not e.keywords and len(e.args) == 1 and ast.unparse(e.func) in ("struct.calcsize", "len"):
-        return _constant_expr(e.args[0], repo)
+        return _constant_expr(e.args[0], repo, fi)
     if isinstance(e, ast.Attribute) and isinstance(e.value, ast.Name):
         return (e.value.id, e.attr) in _stable_class_attributes(repo)
     return False
@@ -1036,7 +1324,7 @@ def propagate_new_constants(repo, ref):
                     if not (isinstance(st, ast.Assign) and len(st.targets) == 1 and isinstance(st.targets[0], ast.Name)):
                         continue
                     name = st.targets[0].id
-                    if name in ref_locals or name in nested or not _constant_expr(st.value, repo):
+                    if name in ref_locals or name in nested or not _constant_expr(st.value, repo, fi) or isinstance(st.value, ast.Name):
                         continue
                     occ = [n for n in walk_own(fi.node) if isinstance(n, ast.Name) and n.id == name]
                     loads = [n for n in occ if isinstance(n.ctx, ast.Load)]
@@ -1632,13 +1920,31 @@ def _leaves(st):
         return out
     if isinstance(st, ast.Try) and not st.finalbody:
         out = []
+        if not st.orelse:
+            # code that follows the try statement is not covered by its handlers: what is moved to the end of the body goes into
+            # a new else clause (see _sink_of); a compound last statement of the body cannot be continued that way
+            if not st.body or isinstance(st.body[-1], (ast.If, ast.Try)):
+                return None
+            _SINK[id(st.body)] = (st, st.orelse)
         for suite in [st.orelse if st.orelse else st.body] + [h.body for h in st.handlers]:
-            l = _suite_leaves(suite)
+            l = [suite] if (suite is st.body) else _suite_leaves(suite)
             if l is None:
                 return None
             out += l
         return out
     return None
+
+
+_SINK = {}
+
+
+def _sink_of(l):
+    """the statement list that receives code moved to the end of leaf `l`: the leaf itself, or the (new) else clause of the try
+    statement whose body the leaf is"""
+    ent = _SINK.get(id(l))
+    if ent is not None and ent[0].body is l:
+        return ent[1]
+    return l
 
 
 def _suite_leaves(suite):
@@ -1695,9 +2001,31 @@ def _thread_flags(fnode):
                             for ch in ast.iter_child_nodes(y):
                                 ch._parent = y
                         r._parent = parent
-                    l[-1:] = rep or [ast.copy_location(ast.Pass(), s2)]
-                    if not rep:
-                        l[-1]._parent = parent
+                    sink = _sink_of(l)
+                    if sink is l:
+                        l[-1:] = rep or [ast.copy_location(ast.Pass(), s2)]
+                        if not rep:
+                            l[-1]._parent = parent
+                    else:
+                        if isinstance(v, ast.Constant):
+                            if len(l) > 1:
+                                del l[-1]
+                            else:
+                                l[-1] = ast.copy_location(ast.Pass(), s2)
+                                l[-1]._parent = parent
+                        else:
+                            # the value is computed where it was (under the handlers); the branch on it is not
+                            node = ast.If(test=ast.UnaryOp(op=ast.Not(), operand=ast.Name(id=flag, ctx=ast.Load())) if neg else ast.Name(id=flag, ctx=ast.Load()),
+                                          body=s2.body, orelse=s2.orelse)
+                            ast.fix_missing_locations(node)
+                            rep = [ast.parse(ast.unparse(node)).body[0]]
+                            for r in rep:
+                                for y in ast.walk(r):
+                                    ast.copy_location(y, l[-1])
+                                    for ch in ast.iter_child_nodes(y):
+                                        ch._parent = y
+                                r._parent = parent
+                        sink.extend(rep)
                 del blk[i + 1]
                 _cleanup(fnode)
                 _invalidate(owner)
@@ -1729,13 +2057,26 @@ def _thread_none_tests(fnode):
                 if not leaves:
                     continue
                 live = [l for l in leaves if not isinstance(l[-1], (ast.Return, ast.Raise, ast.Continue, ast.Break))]
-                if not live or not all(isinstance(l[-1], ast.Assign) and len(l[-1].targets) == 1 and isinstance(l[-1].targets[0], ast.Name) and l[-1].targets[0].id == var for l in live):
+
+                def last_binding(l):
+                    """index of the leaf's last top-level `var = value` after which nothing in the leaf stores var"""
+                    for k in range(len(l) - 1, -1, -1):
+                        st_ = l[k]
+                        if isinstance(st_, ast.Assign) and len(st_.targets) == 1 and isinstance(st_.targets[0], ast.Name) and st_.targets[0].id == var:
+                            return k
+                        if any(isinstance(x, ast.Name) and x.id == var and isinstance(x.ctx, (ast.Store, ast.Del)) for x in ast.walk(st_)):
+                            return None
+                        if not isinstance(st_, (ast.Assign, ast.AugAssign, ast.Expr, ast.Pass)):
+                            return None
+                    return None
+                binds = [last_binding(l) for l in live]
+                if not live or any(k is None for k in binds):
                     continue
-                if not any(isinstance(l[-1].value, ast.Constant) for l in live):
+                if not any(isinstance(l[k].value, ast.Constant) for l, k in zip(live, binds)):
                     continue
-                for l in live:
-                    v = l[-1].value
-                    parent = l[-1]._parent
+                for l, k in zip(live, binds):
+                    v = l[k].value
+                    parent = l[k]._parent
                     if isinstance(v, ast.Constant):
                         suite = s2.body if ((v.value is None) == is_none) else s2.orelse
                         rep = [ast.parse(ast.unparse(x)).body[0] for x in suite]
@@ -1747,12 +2088,17 @@ def _thread_none_tests(fnode):
                             for ch in ast.iter_child_nodes(y):
                                 ch._parent = y
                         r._parent = parent
-                    dead = isinstance(v, ast.Constant) and rep and _always_returns(rep) and \
+                    dead = isinstance(v, ast.Constant) and rep and (_always_returns(rep) or isinstance(rep[-1], ast.Raise)) and \
                         not any(isinstance(x, ast.Name) and x.id == var for r in rep for x in ast.walk(r))
+                    sink = _sink_of(l)
                     if (isinstance(v, ast.Name) and v.id == var) or dead:
-                        l[-1:] = rep          # `x = x` left by the inlining of `return x`; a constant nobody reads before the function is left
-                    else:
-                        l.extend(rep)
+                        # `x = x` left by the inlining of `return x`; a constant nobody reads before the function is left
+                        if len(l) > 1:
+                            del l[k]
+                        else:
+                            l[k] = ast.copy_location(ast.Pass(), s2)
+                            l[k]._parent = parent
+                    sink.extend(rep)
                 del blk[i + 1]
                 _cleanup(fnode)
                 _invalidate(owner)
@@ -1908,6 +2254,73 @@ def _increment_through_temp(fnode, ref_locals):
     return n
 
 
+def _split_chained_assignments(fnode):
+    """a = b = v   ->   a = v; b = v   for a name or constant v (targets are bound left to right; reading v again has no effect)"""
+    n = 0
+    for owner, field, blk in _blocks(fnode):
+        i = 0
+        while i < len(blk):
+            st = blk[i]
+            if isinstance(st, ast.Assign) and len(st.targets) > 1 and isinstance(st.value, (ast.Name, ast.Constant)) \
+                    and not any(isinstance(x, ast.Name) and isinstance(st.value, ast.Name) and x.id == st.value.id for t in st.targets for x in ast.walk(t) if isinstance(t, ast.Name)):
+                fresh = [ast.parse("%s = %s" % (ast.unparse(t), ast.unparse(st.value))).body[0] for t in st.targets]
+                for s_ in fresh:
+                    for y in ast.walk(s_):
+                        ast.copy_location(y, st)
+                        for c_ in ast.iter_child_nodes(y):
+                            c_._parent = y
+                    s_._parent = owner
+                blk[i:i + 1] = fresh
+                i += len(fresh)
+                _invalidate(owner)
+                n += 1
+            elif isinstance(st, ast.Assign) and len(st.targets) > 1 and _chain(st.targets[0]) is not None \
+                    and (isinstance(st.targets[0], ast.Name) or _chain(st.targets[0])[0] == "self") and all(_chain(t) is not None for t in st.targets):
+                # a = b = E   ->   a = E; b = a     (a a local or a plain attribute of self: reading it back yields the value stored)
+                first = ast.unparse(st.targets[0])
+                fresh = [ast.parse("%s = %s" % (first, ast.unparse(st.value))).body[0]] + [ast.parse("%s = %s" % (ast.unparse(t), first)).body[0] for t in st.targets[1:]]
+                for s_ in fresh:
+                    for y in ast.walk(s_):
+                        ast.copy_location(y, st)
+                        for c_ in ast.iter_child_nodes(y):
+                            c_._parent = y
+                    s_._parent = owner
+                blk[i:i + 1] = fresh
+                i += len(fresh)
+                _invalidate(owner)
+                n += 1
+            else:
+                i += 1
+    return n
+
+
+def _assignments_to_ifexp(fnode, ref_entry, ref_locals=None):
+    """if C: t = A   else: t = B     ->   t = A if C else B    when the reference version of the function spells the choice
+    as a conditional expression with that test"""
+    want = set(ref_entry.get("ifexps", ()))
+    n = 0
+
+    def pure(e):
+        return isinstance(e, ast.Constant) or _chain(e) is not None or _pure_chain_expr(e) is not None
+    for owner, field, blk in _blocks(fnode):
+        for i, st in enumerate(blk):
+            if isinstance(st, ast.If) and len(st.body) == 1 and len(st.orelse) == 1 and all(isinstance(x, ast.Assign) and len(x.targets) == 1 and isinstance(x.targets[0], ast.Name)
+                                                                                           for x in (st.body[0], st.orelse[0])) \
+                    and st.body[0].targets[0].id == st.orelse[0].targets[0].id \
+                    and (_txt(st.test) in want or (ref_locals is not None and st.body[0].targets[0].id not in ref_locals and not st.body[0].targets[0].id.startswith("_h")
+                                                   and pure(st.test) and pure(st.body[0].value) and pure(st.orelse[0].value))):
+                new = ast.parse("%s = (%s) if (%s) else (%s)" % (st.body[0].targets[0].id, ast.unparse(st.body[0].value), ast.unparse(st.test), ast.unparse(st.orelse[0].value))).body[0]
+                for y in ast.walk(new):
+                    ast.copy_location(y, st)
+                    for c_ in ast.iter_child_nodes(y):
+                        c_._parent = y
+                new._parent = owner
+                blk[i] = new
+                _invalidate(owner)
+                n += 1
+    return n
+
+
 def _ifexp_assignments(fnode, ref_locals):
     """t = A if C else B   (t a new local)   ->   if C: t = A   else: t = B"""
     n = 0
@@ -1996,7 +2409,16 @@ def _tail_duplicate(fnode, ref_locals):
                         for c_ in ast.iter_child_nodes(y):
                             c_._parent = y
                     rep._parent = parent
-                    l[len(l) - len(tr):] = [rep]
+                    sink = _sink_of(l)
+                    if sink is l:
+                        l[len(l) - len(tr):] = [rep]
+                    else:
+                        if len(l) > len(tr):
+                            del l[len(l) - len(tr):]
+                        else:
+                            l[:] = [ast.copy_location(ast.Pass(), u)]
+                            l[0]._parent = parent
+                        sink.append(rep)
                 del blk[i + 1]
                 _invalidate(owner)
                 n += 1
